@@ -64,6 +64,7 @@ Apply(s, e) ==
     [] e.op = "flush"              -> Flush(s)
     [] e.op = "version"            -> {OkV(s, e.res.v)}
     [] e.op = "reopen"             -> Reopen(s)
+    [] e.op = "relayout"           -> Reopen(s)           \* the same content in another legal layout, reopened
     [] e.op = "h_write"            -> HWrite(s, e.h, e.off, e.runs)
     [] e.op = "h_read"             -> HRead(s, e.h)
     [] e.op = "h_len"              -> HLen(s, e.h)
